@@ -5,6 +5,8 @@ import (
 	"go/token"
 	"go/types"
 	"path/filepath"
+	"strings"
+	"unicode/utf8"
 
 	"golang.org/x/tools/go/ssa"
 )
@@ -67,6 +69,121 @@ func (e *Exec) fault(tag string) bool {
 
 type httpReqInfo struct{ ctx value }
 
+// promRefuses models the refusals of client_golang v1.20 / common v0.60
+// (legacy name validation) in NewDesc + NewConstMetric/NewConstHistogram:
+// invalid metric name, invalid, reserved or duplicate label name, wrong
+// number of label values, label value that is not valid UTF-8.  Names are
+// concrete in every harness; label values may hold symbolic bytes (the UTF-8
+// automaton forks on them).  It returns "" when the sample is accepted.
+func (e *Exec) promRefuses(d *promDesc, lv []value) string {
+	name, ok := concStr(d.name)
+	if !ok {
+		panic(inconclusive{"prometheus.NewDesc with a symbolic metric name"})
+	}
+	if !promLegacyName(name, true) {
+		return "refused: invalid metric name"
+	}
+	seen := map[string]bool{}
+	for _, l := range d.labels {
+		ln, ok := concStr(l)
+		if !ok {
+			panic(inconclusive{"prometheus.NewDesc with a symbolic label name"})
+		}
+		if !promLegacyName(ln, false) || strings.HasPrefix(ln, "__") {
+			return "refused: invalid label name"
+		}
+		if seen[ln] {
+			return "refused: duplicate label names"
+		}
+		seen[ln] = true
+	}
+	if len(lv) != len(d.labels) {
+		return "refused: inconsistent label cardinality"
+	}
+	for _, v := range lv {
+		if !e.utf8Valid(strBytes(v)) {
+			return "refused: label value is not valid UTF-8"
+		}
+	}
+	return ""
+}
+
+// promLegacyName: [a-zA-Z_:][a-zA-Z0-9_:]* for metric names, without the
+// colon for label names (model.IsValidLegacyMetricName / LabelName.IsValid).
+func promLegacyName(s string, colon bool) bool {
+	if s == "" {
+		return false
+	}
+	for i := 0; i < len(s); i++ {
+		b := s[i]
+		switch {
+		case b >= 'a' && b <= 'z', b >= 'A' && b <= 'Z', b == '_', b == ':' && colon:
+		case b >= '0' && b <= '9' && i > 0:
+		default:
+			return false
+		}
+	}
+	return true
+}
+
+// byteIn is the condition lo <= b <= hi on a possibly symbolic byte.
+func byteIn(b Int, lo, hi byte) Bool {
+	if b.X != nil {
+		panic(inconclusive{"UTF-8 validity of a formatted (opaque) string piece"})
+	}
+	if b.isConc() {
+		return Bool{C: byte(b.C) >= lo && byte(b.C) <= hi}
+	}
+	b.S = false // bytes compare unsigned
+	ge := intBinop(token.GEQ, b, mkByte(lo)).(Bool)
+	le := intBinop(token.LEQ, b, mkByte(hi)).(Bool)
+	return band(ge, le)
+}
+
+// utf8Valid is unicode/utf8.ValidString over possibly symbolic bytes: the
+// well-formed byte sequences of the Unicode standard (table 3-7) as one
+// condition over the bytes (valid[i]: the suffix from i is well formed),
+// decided with a single fork.
+func (e *Exec) utf8Valid(bs []Int) bool {
+	if allConc(bs) && !hasOpaque(bs) {
+		raw := make([]byte, len(bs))
+		for i, b := range bs {
+			raw[i] = byte(b.C)
+		}
+		return utf8.Valid(raw)
+	}
+	if len(bs) > 6 {
+		panic(inconclusive{"UTF-8 validity of a symbolic string longer than 6 bytes"})
+	}
+	n := len(bs)
+	valid := make([]Bool, n+1)
+	valid[n] = Bool{C: true}
+	cont := func(k int) Bool { return byteIn(bs[k], 0x80, 0xBF) }
+	for i := n - 1; i >= 0; i-- {
+		b := bs[i]
+		v := band(byteIn(b, 0x00, 0x7F), valid[i+1])
+		if i+1 < n {
+			v = bor(v, band(band(byteIn(b, 0xC2, 0xDF), cont(i+1)), valid[i+2]))
+		}
+		if i+2 < n {
+			second := bor(bor(
+				band(byteIn(b, 0xE0, 0xE0), byteIn(bs[i+1], 0xA0, 0xBF)),
+				band(byteIn(b, 0xED, 0xED), byteIn(bs[i+1], 0x80, 0x9F))),
+				band(bor(byteIn(b, 0xE1, 0xEC), byteIn(b, 0xEE, 0xEF)), cont(i+1)))
+			v = bor(v, band(band(second, cont(i+2)), valid[i+3]))
+		}
+		if i+3 < n {
+			second := bor(bor(
+				band(byteIn(b, 0xF0, 0xF0), byteIn(bs[i+1], 0x90, 0xBF)),
+				band(byteIn(b, 0xF4, 0xF4), byteIn(bs[i+1], 0x80, 0x8F))),
+				band(byteIn(b, 0xF1, 0xF3), cont(i+1)))
+			v = bor(v, band(band(band(second, cont(i+2)), cont(i+3)), valid[i+4]))
+		}
+		valid[i] = v
+	}
+	return e.decide(valid[0])
+}
+
 func init() {
 	stubs[promPkg+".NewDesc"] = func(e *Exec, fn *ssa.Function, args []value) value {
 		ls, _ := args[2].([]value)
@@ -78,10 +195,15 @@ func init() {
 	stubs[promPkg+".NewConstMetric"] = func(e *Exec, fn *ssa.Function, args []value) value {
 		d := (*args[0].(*value)).(*promDesc)
 		lv, _ := args[3].([]value)
-		// the client library refuses unrepresentable names/labels; which
-		// calls fail is chosen by the solver
+		// the client library refuses unrepresentable names/labels: the
+		// refusals of client_golang (promRefuses) are modelled, and on top
+		// of them any call may be refused at the solver's choice
 		if e.fault("NewConstMetric") {
 			return tuple{iface{}, e.newError("injected: prometheus refused the sample", nil)}
+		}
+		if why := e.promRefuses(d, lv); why != "" {
+			e.faultSeq++
+			return tuple{iface{}, e.newError(why, nil)}
 		}
 		m := &promMetric{desc: d, vtype: args[1].(Int), val: args[2].(Float), labels: append([]value{}, lv...)}
 		return tuple{iface{t: promMetricType, v: m}, iface{}}
@@ -91,6 +213,10 @@ func init() {
 		lv, _ := args[4].([]value)
 		if e.fault("NewConstMetric") {
 			return tuple{iface{}, e.newError("injected: prometheus refused the sample", nil)}
+		}
+		if why := e.promRefuses(d, lv); why != "" {
+			e.faultSeq++
+			return tuple{iface{}, e.newError(why, nil)}
 		}
 		bm, _ := args[3].(*omap)
 		m := &promMetric{desc: d, hist: true, count: args[1].(Int), sum: args[2].(Float), buckets: bm, labels: append([]value{}, lv...)}
